@@ -187,6 +187,7 @@ func (w *world) memPreserved(c *rCtr) bool {
 type reporter func(clause, sig string, format string, a ...any)
 
 type oracles struct {
+	victim    *rCtr // container the clause being evaluated is about (nil: pool-level clause)
 	canon     int
 	coexisted [][]string
 	lastKind  string
@@ -303,15 +304,7 @@ func (o *oracles) checkC01(rep0 reporter) {
 	w := o.w
 	// F16: after a rejected configuration update topology-aware's grants and
 	// the cached cpusets can get out of step; classified separately
-	rep := func(clause, sig string, format string, a ...any) {
-		// one cause per signature: the rejected-reconfigure context only
-		// qualifies violations that have no more specific cause
-		specific := strings.Contains(sig, "victim-") || strings.Contains(sig, "class-changed")
-		if w.rejectedReconf && !specific {
-			sig += " after-rejected-reconfigure"
-		}
-		rep0(clause, sig, format, a...)
-	}
+	rep := o.withCause(rep0)
 	sn := o.taSnap()
 	if sn == nil {
 		return
@@ -351,6 +344,7 @@ func (o *oracles) checkC01(rep0 reporter) {
 			if y.spec.ID == sn.Grants[i].Container || !y.t.CpusSet || !w.cfg.PinCPU {
 				continue
 			}
+			o.victim = y
 			res.Check("exclusive-not-shared")
 			if c := xi.inter(parseSet(y.t.Cpus)); len(c) > 0 {
 				how := "other-with-grant"
@@ -376,6 +370,7 @@ func (o *oracles) checkC01(rep0 reporter) {
 				rep("exclusive-not-shared", "exclusive-not-shared "+how, "CPUs %s granted exclusively to %s are in the cpuset %q the runtime was told for %s (%s)", c, sn.Grants[i].Container, y.t.Cpus, y.spec.ID, how)
 			}
 		}
+		o.victim = nil
 		// (c) not in any pool's shared set
 		for _, p := range sn.Pools {
 			res.Check("exclusive-not-in-shared-set")
@@ -389,6 +384,7 @@ func (o *oracles) checkC01(rep0 reporter) {
 		if !y.t.CpusSet || !w.cfg.PinCPU {
 			continue
 		}
+		o.victim = y
 		t := parseSet(y.t.Cpus)
 		res.Check("within-available")
 		lost := ""
@@ -766,5 +762,37 @@ func (o *oracles) checkC14(rep reporter, r *reply) {
 			rep("serves-after-refusal", "serves-after-refusal "+seq[i].Kind+" after-refused-"+r.kind, "after the refused %s (%v) the canonical %s of a new BestEffort container failed: skipped=%v err=%v", r.kind, r.err, seq[i].Kind, rr.skipped, rr.err)
 			return
 		}
+	}
+}
+
+// withCause appends exactly one cause label to the signature of a violation
+// that does not carry one yet, by priority: the victim lost its grant (F8/F25);
+// the victim was allocated under a configuration that has since been replaced
+// (topology-aware reinstates grants verbatim, F11/F24); a configuration update
+// was rejected and reverted in this incarnation (F16); an accepted
+// reconfiguration happened in this incarnation.
+func (o *oracles) withCause(rep0 reporter) reporter {
+	return func(clause, sig string, format string, a ...any) {
+		w := o.w
+		has := false
+		for _, m := range []string{"victim-", "class-changed", "sliced-by-ancestor", "pool-without", "after-rejected", "allocated-under", "after-reconfiguration"} {
+			if strings.Contains(sig, m) {
+				has = true
+			}
+		}
+		if !has {
+			y := o.victim
+			switch {
+			case y != nil && y.lostGrant != "":
+				sig += " victim-lost-grant-in-" + y.lostGrant
+			case y != nil && y.cfgAtAlloc != nil && y.cfgAtAlloc != w.cfg:
+				sig += " allocated-under-previous-configuration"
+			case w.rejectedReconf:
+				sig += " after-rejected-reconfigure"
+			case w.reconfiguredInc:
+				sig += " after-reconfiguration"
+			}
+		}
+		rep0(clause, sig, format, a...)
 	}
 }
